@@ -264,6 +264,12 @@ func (b *builder) buildRule(ev *Event, ruleID string, depth int) *ProofNode {
 	for i, p := range ev.Rule.Premises {
 		switch term := p.(type) {
 		case ast.Atom:
+			if term.Predicate.IsBuiltin() {
+				// A built-in predicate is a constraint on the bindings, not
+				// a stored relation: like Eq and Ineq it held when the rule
+				// fired and has no sub-proof.
+				continue
+			}
 			fact := ev.PremiseFacts[i]
 			if fact.Predicate.Symbol == "" {
 				// Missing in store — something derived via an unsupported
